@@ -1,3 +1,699 @@
-From stdpp Require Import gmap strings sets.
+(** C15 — proofs about the executable model of CRNHyperGraph (model/C15_Model.v).
+
+    Contents
+      1. the store invariant [Inv] and its parameterised form [PInv] used inside
+         the two loops of remove_rxn
+      2. index lemmas (idx_add / idx_touch / discard / prune)
+      3. preservation of [Inv] by every operation, every outcome
+      4. worlds: step / reachable / frame
+      5. id generation: generated ids are fresh; the loop bound suffices
+      6. refinement to the abstract store  id ↦ reaction  (the [edges] map)
+      7. incidence = products − reactants
+      8. non-vacuity examples *)
+From stdpp Require Import gmap strings sets pretty.
 From SK Require Import model.C15_Model.
-Lemma stub : empty_net = empty_net. Proof. reflexivity. Qed.
+Local Open Scope string_scope.
+
+(** * 1. The invariant *)
+
+Definition producers (E : gmap string rxn) (x : string) : gset string :=
+  dom (filter (λ p, x ∈ dom (r_rhs p.2)) E).
+Definition consumers (E : gmap string rxn) (x : string) : gset string :=
+  dom (filter (λ p, x ∈ dom (r_lhs p.2)) E).
+
+Lemma elem_of_producers E x e :
+  e ∈ producers E x ↔ ∃ rx, E !! e = Some rx ∧ x ∈ dom (r_rhs rx).
+Proof.
+  unfold producers. rewrite elem_of_dom. split.
+  - intros [rx Hrx]. apply map_filter_lookup_Some in Hrx as [H1 H2]. eauto.
+  - intros (rx & H1 & H2). exists rx. apply map_filter_lookup_Some. done.
+Qed.
+Lemma elem_of_consumers E x e :
+  e ∈ consumers E x ↔ ∃ rx, E !! e = Some rx ∧ x ∈ dom (r_lhs rx).
+Proof.
+  unfold consumers. rewrite elem_of_dom. split.
+  - intros [rx Hrx]. apply map_filter_lookup_Some in Hrx as [H1 H2]. eauto.
+  - intros (rx & H1 & H2). exists rx. apply map_filter_lookup_Some. done.
+Qed.
+
+(** occurring species of an edge map *)
+Definition occurs (E : gmap string rxn) (x : string) : Prop :=
+  ∃ e rx, E !! e = Some rx ∧ x ∈ rxn_species rx.
+
+Record Inv (s : net) : Prop := {
+  inv_in : ∀ x, default ∅ (s_in s !! x) = producers (edges s) x;
+  inv_out : ∀ x, default ∅ (s_out s !! x) = consumers (edges s) x;
+  inv_occ : ∀ x, occurs (edges s) x → x ∈ species s;
+  inv_sp : ∀ x, x ∈ species s → occurs (edges s) x ∨ x ∈ kept s;
+  inv_mol : dom (mol s) ⊆ species s;
+  inv_nodup : NoDup (order s);
+  inv_order : ∀ e, e ∈ order s ↔ is_Some (edges s !! e);
+  inv_nonempty : ∀ e rx, edges s !! e = Some rx → rxn_empty rx = false;
+  inv_rule : ∀ e rx, edges s !! e = Some rx → r_rule rx ≠ ""
+}.
+
+(** The index / species / label part of the invariant, with a reaction id [e]
+    that has already been popped from the edge map but is still listed in the
+    out-index of the species in [Dout] and the in-index of those in [Din];
+    [P] are species whose orphan test is still due. *)
+Record PInv (e : string) (Dout Din P : gset string) (s : net) : Prop := {
+  p_in : ∀ x e', e' ∈ default ∅ (s_in s !! x) ↔
+                 (∃ rx, edges s !! e' = Some rx ∧ x ∈ dom (r_rhs rx)) ∨ (e' = e ∧ x ∈ Din);
+  p_out : ∀ x e', e' ∈ default ∅ (s_out s !! x) ↔
+                 (∃ rx, edges s !! e' = Some rx ∧ x ∈ dom (r_lhs rx)) ∨ (e' = e ∧ x ∈ Dout);
+  p_occ : ∀ x, occurs (edges s) x → x ∈ species s;
+  p_sp : ∀ x, x ∈ species s → occurs (edges s) x ∨ x ∈ kept s ∨ x ∈ Dout ∪ Din ∪ P;
+  p_mol : dom (mol s) ⊆ species s
+}.
+
+Lemma Inv_PInv e s : Inv s → PInv e ∅ ∅ ∅ s.
+Proof.
+  intros HI. split.
+  - intros x e'. rewrite (inv_in _ HI), elem_of_producers. set_solver.
+  - intros x e'. rewrite (inv_out _ HI), elem_of_consumers. set_solver.
+  - apply HI.
+  - intros x Hx. destruct (inv_sp _ HI x Hx); auto.
+  - apply HI.
+Qed.
+
+Lemma PInv_Inv e s :
+  PInv e ∅ ∅ ∅ s → NoDup (order s) → (∀ e', e' ∈ order s ↔ is_Some (edges s !! e')) →
+  (∀ e' rx, edges s !! e' = Some rx → rxn_empty rx = false) →
+  (∀ e' rx, edges s !! e' = Some rx → r_rule rx ≠ "") → Inv s.
+Proof.
+  intros HP Hnd Hord Hne Hrule. split; try done.
+  - intros x. apply set_eq. intros e'. rewrite (p_in _ _ _ _ _ HP), elem_of_producers. set_solver.
+  - intros x. apply set_eq. intros e'. rewrite (p_out _ _ _ _ _ HP), elem_of_consumers. set_solver.
+  - apply HP.
+  - intros x Hx. destruct (p_sp _ _ _ _ _ HP x Hx) as [?|[?|?]]; auto. set_solver.
+  - apply HP.
+Qed.
+
+Lemma Inv_init : Inv empty_net.
+Proof.
+  split; cbn.
+  - intros x. rewrite lookup_empty. cbn. apply set_eq. intros e.
+    rewrite elem_of_producers. setoid_rewrite lookup_empty. set_solver.
+  - intros x. rewrite lookup_empty. cbn. apply set_eq. intros e.
+    rewrite elem_of_consumers. setoid_rewrite lookup_empty. set_solver.
+  - intros x (e & rx & H & _). by rewrite lookup_empty in H.
+  - set_solver.
+  - set_solver.
+  - constructor.
+  - intros e. rewrite lookup_empty. split; [by intros ?%elem_of_nil|by intros [? ?]].
+  - intros e rx. by rewrite lookup_empty.
+  - intros e rx. by rewrite lookup_empty.
+Qed.
+
+(** * 2. Index lemmas *)
+
+Lemma idx_add_lookup e ks m x :
+  default ∅ (idx_add e ks m !! x) =
+  (if decide (x ∈ ks) then {[e]} ∪ default ∅ (m !! x) else default ∅ (m !! x)).
+Proof.
+  unfold idx_add. revert ks.
+  apply (set_fold_ind_L (λ acc (ks : gset string), default ∅ (acc !! x) =
+           if decide (x ∈ ks) then {[e]} ∪ default ∅ (m !! x) else default ∅ (m !! x))).
+  - destruct (decide _) as [H|H]; [set_solver|done].
+  - intros y X acc Hy IH. destruct (decide (x = y)) as [->|Hne].
+    + rewrite lookup_insert. simpl. rewrite IH. destruct (decide (y ∈ X)); [set_solver|].
+      destruct (decide (y ∈ {[y]} ∪ X)); [done|set_solver].
+    + rewrite lookup_insert_ne by done. rewrite IH.
+      destruct (decide (x ∈ X)), (decide (x ∈ {[y]} ∪ X)); try done; set_solver.
+Qed.
+
+Lemma idx_touch_lookup ks m x : default ∅ (idx_touch ks m !! x) = default ∅ (m !! x).
+Proof.
+  unfold idx_touch. revert ks.
+  apply (set_fold_ind_L (λ acc (_ : gset string), default ∅ (acc !! x) = default ∅ (m !! x))); [done|].
+  intros y X acc Hy IH. destruct (decide (x = y)) as [->|Hne].
+  - rewrite lookup_insert. simpl. done.
+  - rewrite lookup_insert_ne by done. done.
+Qed.
+
+Lemma default_delete_empty (m : gmap string (gset string)) x y :
+  default ∅ (m !! x) = ∅ → default ∅ (delete x m !! y) = default ∅ (m !! y).
+Proof.
+  intros Hx. destruct (decide (y = x)) as [->|Hne].
+  - by rewrite lookup_delete, Hx.
+  - by rewrite lookup_delete_ne.
+Qed.
+
+Lemma default_discard (m : gmap string (gset string)) e x y :
+  default ∅ (<[x := default ∅ (m !! x) ∖ {[e]}]> m !! y) =
+  if decide (y = x) then default ∅ (m !! x) ∖ {[e]} else default ∅ (m !! y).
+Proof.
+  destruct (decide (y = x)) as [->|Hne].
+  - by rewrite lookup_insert.
+  - by rewrite lookup_insert_ne.
+Qed.
+
+Lemma default_alter_empty (m : gmap string (gset string)) x y :
+  default ∅ (alter (λ _, ∅) x m !! y) = if decide (y = x) then ∅ else default ∅ (m !! y).
+Proof.
+  destruct (decide (y = x)) as [->|Hne].
+  - rewrite lookup_alter. by destruct (m !! x).
+  - by rewrite lookup_alter_ne.
+Qed.
+
+(** * 3. Preservation *)
+
+Lemma rxn_empty_false rx : rxn_empty rx = false ↔ rxn_species rx ≠ ∅.
+Proof.
+  unfold rxn_empty, rxn_species. rewrite bool_decide_eq_false. split.
+  - intros H Hd. apply H. apply empty_union_L in Hd as [H1 H2].
+    by apply dom_empty_inv_L in H1, H2.
+  - intros H [H1 H2]. apply H. rewrite H1, H2. set_solver.
+Qed.
+
+Lemma set_counters_Inv s c : Inv s → Inv (set_counters s c).
+Proof. intros [? ? ? ? ? ? ? ? ?]. by split. Qed.
+
+Lemma register_Inv s e r :
+  Inv s → edges s !! e = None → rxn_empty r = false → r_rule r ≠ "" → Inv (register s e r).
+Proof.
+  intros HI Hn Hne Hrule. split; cbn [register species edges order s_in s_out mol kept].
+  - intros x. rewrite idx_add_lookup, idx_touch_lookup, (inv_in _ HI).
+    apply set_eq. intros e'. rewrite elem_of_producers.
+    destruct (decide (e' = e)) as [->|Hd].
+    + rewrite lookup_insert. destruct (decide _) as [Hx|Hx].
+      * split; [eauto|set_solver].
+      * rewrite elem_of_producers, Hn. split; [by intros (?&?&?)|]. intros (?&[= <-]&?). done.
+    + rewrite lookup_insert_ne by done. destruct (decide _); rewrite ?elem_of_union, elem_of_producers; set_solver.
+  - intros x. rewrite idx_add_lookup, idx_touch_lookup, (inv_out _ HI).
+    apply set_eq. intros e'. rewrite elem_of_consumers.
+    destruct (decide (e' = e)) as [->|Hd].
+    + rewrite lookup_insert. destruct (decide _) as [Hx|Hx].
+      * split; [eauto|set_solver].
+      * rewrite elem_of_consumers, Hn. split; [by intros (?&?&?)|]. intros (?&[= <-]&?). done.
+    + rewrite lookup_insert_ne by done. destruct (decide _); rewrite ?elem_of_union, elem_of_consumers; set_solver.
+  - intros x (e' & rx & He' & Hx). destruct (decide (e' = e)) as [->|Hd].
+    + rewrite lookup_insert in He'. injection He' as <-. set_solver.
+    + rewrite lookup_insert_ne in He' by done. apply elem_of_union_l, (inv_occ _ HI). by exists e', rx.
+  - intros x [Hx|Hx]%elem_of_union.
+    + destruct (inv_sp _ HI x Hx) as [(e' & rx & He' & Hx')|?]; [|by right].
+      left. exists e', rx. split; [|done]. rewrite lookup_insert_ne; [done|]. intros <-. congruence.
+    + left. exists e, r. by rewrite lookup_insert.
+  - pose proof (inv_mol _ HI). set_solver.
+  - apply NoDup_app. split; [apply HI|]. split; [|apply NoDup_singleton].
+    intros e' He' ->%elem_of_list_singleton. apply (inv_order _ HI) in He'. rewrite Hn in He'. by destruct He'.
+  - intros e'. rewrite elem_of_app, elem_of_list_singleton, (inv_order _ HI).
+    destruct (decide (e' = e)) as [->|Hd].
+    + rewrite lookup_insert. split; eauto.
+    + rewrite lookup_insert_ne by done. split; [by intros [?|?]|by left].
+  - intros e' rx. destruct (decide (e' = e)) as [->|Hd].
+    + rewrite lookup_insert. by intros [= <-].
+    + rewrite lookup_insert_ne by done. apply HI.
+  - intros e' rx. destruct (decide (e' = e)) as [->|Hd].
+    + rewrite lookup_insert. by intros [= <-].
+    + rewrite lookup_insert_ne by done. apply HI.
+Qed.
+
+(** ids produced by the generator are not keys of the edge map *)
+Lemma fresh_spec fuel rule cnt E c e :
+  fresh fuel rule cnt E = Some (c, e) → E !! e = None ∧ e = gen_id rule c ∧ (cnt < c)%N.
+Proof.
+  revert cnt. induction fuel as [|f IH]; intros cnt; cbn; [done|].
+  destruct (decide _) as [Hs|Hs].
+  - intros H. apply IH in H as (?&?&?). split_and!; [done..|lia].
+  - intros [= <- <-]. split_and!; [by apply eq_None_not_Some|done|lia].
+Qed.
+
+Lemma next_id_fresh s rule c e : next_id s rule = Some (c, e) → edges s !! e = None.
+Proof. unfold next_id. intros H. by apply fresh_spec in H as (?&?&?). Qed.
+
+Lemma norm_rule_ne rule : norm_rule rule ≠ "".
+Proof. unfold norm_rule. by destruct (decide _). Qed.
+
+Lemma add_Inv s l r rule eid : Inv s → Inv (add s l r rule eid).1.1.
+Proof.
+  intros HI. unfold add. destruct eid as [e|].
+  - destruct (decide _) as [Hs|Hs]; [done|]. apply eq_None_not_Some in Hs.
+    destruct (rxn_empty _) eqn:Hem; [done|]. cbn.
+    apply register_Inv; [done..|apply norm_rule_ne].
+  - destruct (next_id _ _) as [[c e]|] eqn:Hid; [|done].
+    apply next_id_fresh in Hid.
+    destruct (rxn_empty _) eqn:Hem; cbn; [by apply set_counters_Inv|].
+    apply register_Inv; [by apply set_counters_Inv|done|done|apply norm_rule_ne].
+Qed.
+
+(** ** remove_rxn *)
+
+Lemma prune_orphan_PInv e Dout Din P x s :
+  PInv e Dout Din P s → P ⊆ {[x]} → PInv e Dout Din ∅ (prune_orphan x s).
+Proof.
+  intros HP HPx. unfold prune_orphan. destruct (decide _) as [[Hi Ho]|Hno].
+  - assert (Hnocc : ¬ occurs (edges s) x).
+    { intros (e' & rx & He' & [Hx|Hx]%elem_of_union).
+      - assert (e' ∈ default ∅ (s_out s !! x)) by (apply (p_out _ _ _ _ _ HP); left; eauto). set_solver.
+      - assert (e' ∈ default ∅ (s_in s !! x)) by (apply (p_in _ _ _ _ _ HP); left; eauto). set_solver. }
+    assert (HDin : x ∉ Din).
+    { intros Hx. assert (e ∈ default ∅ (s_in s !! x)) by (apply (p_in _ _ _ _ _ HP); by right). set_solver. }
+    assert (HDout : x ∉ Dout).
+    { intros Hx. assert (e ∈ default ∅ (s_out s !! x)) by (apply (p_out _ _ _ _ _ HP); by right). set_solver. }
+    split; cbn.
+    + intros y e'. rewrite default_delete_empty by done. apply HP.
+    + intros y e'. rewrite default_delete_empty by done. apply HP.
+    + intros y Hy. apply elem_of_difference. split; [by apply HP|]. by intros ->%elem_of_singleton.
+    + intros y [Hy Hne]%elem_of_difference.
+      destruct (p_sp _ _ _ _ _ HP y Hy) as [?|[?|?]]; auto. right; right. set_solver.
+    + rewrite dom_delete_L. pose proof (p_mol _ _ _ _ _ HP). set_solver.
+  - split; try apply HP. intros y Hy.
+    destruct (p_sp _ _ _ _ _ HP y Hy) as [?|[?|Hy']]; auto.
+    destruct (decide (y = x)) as [->|Hne]; [|right; right; set_solver].
+    apply not_and_l in Hno as [Hi|Ho].
+    + apply set_choose_L in Hi as [e' He']. apply (p_in _ _ _ _ _ HP) in He' as [(rx&?&?)|[-> ?]].
+      * left. exists e', rx. unfold rxn_species. set_solver.
+      * right; right. set_solver.
+    + apply set_choose_L in Ho as [e' He']. apply (p_out _ _ _ _ _ HP) in He' as [(rx&?&?)|[-> ?]].
+      * left. exists e', rx. unfold rxn_species. set_solver.
+      * right; right. set_solver.
+Qed.
+
+Lemma out_discard_PInv e Dout Din x s :
+  edges s !! e = None → PInv e Dout Din ∅ s → PInv e (Dout ∖ {[x]}) Din {[x]} (out_discard e x s).
+Proof.
+  intros Hn HP. split; cbn.
+  - apply HP.
+  - intros y e'. rewrite default_discard. destruct (decide (y = x)) as [->|Hne].
+    + rewrite elem_of_difference, (p_out _ _ _ _ _ HP). split.
+      * intros [[?|[-> ?]] Hne]; [by left|set_solver].
+      * intros [(rx&He'&?)|[-> ?]]; [|set_solver]. split; [left; eauto|].
+        intros ->%elem_of_singleton. congruence.
+    + rewrite (p_out _ _ _ _ _ HP). set_solver.
+  - apply HP.
+  - intros y Hy. destruct (p_sp _ _ _ _ _ HP y Hy) as [?|[?|?]]; auto.
+    right; right. destruct (decide (y = x)); set_solver.
+  - apply HP.
+Qed.
+
+Lemma in_discard_PInv e Dout Din x s :
+  edges s !! e = None → PInv e Dout Din ∅ s → PInv e Dout (Din ∖ {[x]}) {[x]} (in_discard e x s).
+Proof.
+  intros Hn HP. split; cbn.
+  - intros y e'. rewrite default_discard. destruct (decide (y = x)) as [->|Hne].
+    + rewrite elem_of_difference, (p_in _ _ _ _ _ HP). split.
+      * intros [[?|[-> ?]] Hne]; [by left|set_solver].
+      * intros [(rx&He'&?)|[-> ?]]; [|set_solver]. split; [left; eauto|].
+        intros ->%elem_of_singleton. congruence.
+    + rewrite (p_in _ _ _ _ _ HP). set_solver.
+  - apply HP.
+  - apply HP.
+  - intros y Hy. destruct (p_sp _ _ _ _ _ HP y Hy) as [?|[?|?]]; auto.
+    right; right. destruct (decide (y = x)); set_solver.
+  - apply HP.
+Qed.
+
+(** the parts of the state no loop of remove_rxn touches *)
+Definition same_frame (s s' : net) : Prop :=
+  edges s' = edges s ∧ order s' = order s ∧ kept s' = kept s ∧ counters s' = counters s.
+
+Lemma prune_orphan_frame x s : same_frame s (prune_orphan x s).
+Proof. unfold prune_orphan. by destruct (decide _). Qed.
+
+Lemma fold_out_PInv e Dout Din s0 D :
+  edges s0 !! e = None → PInv e Dout Din ∅ s0 →
+  let s' := set_fold (λ x acc, prune_orphan x (out_discard e x acc)) s0 D in
+  PInv e (Dout ∖ D) Din ∅ s' ∧ same_frame s0 s'.
+Proof.
+  intros Hn HP. cbn. revert D.
+  apply (set_fold_ind_L (λ acc (X : gset string), PInv e (Dout ∖ X) Din ∅ acc ∧ same_frame s0 acc)).
+  - rewrite difference_empty_L. done.
+  - intros x X acc Hx [IH (HE & HO & HK & HC)].
+    assert (Dout ∖ ({[x]} ∪ X) = (Dout ∖ X) ∖ {[x]}) as -> by set_solver.
+    split.
+    + eapply prune_orphan_PInv; [|done]. apply out_discard_PInv; [|done]. by rewrite HE.
+    + destruct (prune_orphan_frame x (out_discard e x acc)) as (?&?&?&?).
+      unfold same_frame. cbn in *. split_and!; congruence.
+Qed.
+
+Lemma fold_in_PInv e Dout Din s0 D :
+  edges s0 !! e = None → PInv e Dout Din ∅ s0 →
+  let s' := set_fold (λ x acc, prune_orphan x (in_discard e x acc)) s0 D in
+  PInv e Dout (Din ∖ D) ∅ s' ∧ same_frame s0 s'.
+Proof.
+  intros Hn HP. cbn. revert D.
+  apply (set_fold_ind_L (λ acc (X : gset string), PInv e Dout (Din ∖ X) ∅ acc ∧ same_frame s0 acc)).
+  - rewrite difference_empty_L. done.
+  - intros x X acc Hx [IH (HE & HO & HK & HC)].
+    assert (Din ∖ ({[x]} ∪ X) = (Din ∖ X) ∖ {[x]}) as -> by set_solver.
+    split.
+    + eapply prune_orphan_PInv; [|done]. apply in_discard_PInv; [|done]. by rewrite HE.
+    + destruct (prune_orphan_frame x (in_discard e x acc)) as (?&?&?&?).
+      unfold same_frame. cbn in *. split_and!; congruence.
+Qed.
+
+(** what remove_rxn does to the abstract store, and the invariant of the result *)
+Lemma remove_rxn_full s e rx :
+  Inv s → edges s !! e = Some rx →
+  let s' := (remove_rxn s e).1 in
+  (remove_rxn s e).2 = None ∧ Inv s' ∧ edges s' = delete e (edges s) ∧
+  order s' = filter (λ e', e' ≠ e) (order s) ∧ kept s' = kept s ∧ counters s' = counters s.
+Proof.
+  intros HI He. unfold remove_rxn. rewrite He. cbn.
+  set (s1 := Net (species s) (delete e (edges s)) (filter (λ e', e' ≠ e) (order s))
+                 (s_in s) (s_out s) (counters s) (mol s) (kept s)).
+  assert (Hn1 : edges s1 !! e = None) by apply lookup_delete.
+  assert (HP1 : PInv e (dom (r_lhs rx)) (dom (r_rhs rx)) ∅ s1).
+  { split; cbn.
+    - intros x e'. rewrite (inv_in _ HI), elem_of_producers.
+      destruct (decide (e' = e)) as [->|Hd].
+      + rewrite lookup_delete, He. split.
+        * intros (?&[= <-]&?). by right.
+        * intros [(?&?&?)|[_ ?]]; [done|eauto].
+      + rewrite lookup_delete_ne by done. set_solver.
+    - intros x e'. rewrite (inv_out _ HI), elem_of_consumers.
+      destruct (decide (e' = e)) as [->|Hd].
+      + rewrite lookup_delete, He. split.
+        * intros (?&[= <-]&?). by right.
+        * intros [(?&?&?)|[_ ?]]; [done|eauto].
+      + rewrite lookup_delete_ne by done. set_solver.
+    - intros x (e' & rx' & He' & Hx). apply lookup_delete_Some in He' as [? He'].
+      apply (inv_occ _ HI). by exists e', rx'.
+    - intros x Hx. destruct (inv_sp _ HI x Hx) as [(e' & rx' & He' & Hx')|?]; [|auto].
+      destruct (decide (e' = e)) as [->|Hd].
+      + rewrite He in He'. injection He' as <-. right; right. unfold rxn_species in Hx'. set_solver.
+      + left. exists e', rx'. by rewrite lookup_delete_ne.
+    - apply HI. }
+  destruct (fold_out_PInv e _ _ s1 (dom (r_lhs rx)) Hn1 HP1) as [HP2 HF2].
+  set (s2 := set_fold (λ x acc, prune_orphan x (out_discard e x acc)) s1 (dom (r_lhs rx))) in *.
+  assert (Hn2 : edges s2 !! e = None) by (destruct HF2 as [-> _]; done).
+  destruct (fold_in_PInv e _ _ s2 (dom (r_rhs rx)) Hn2 HP2) as [HP3 HF3].
+  set (s3 := set_fold (λ x acc, prune_orphan x (in_discard e x acc)) s2 (dom (r_rhs rx))) in *.
+  rewrite !difference_diag_L in HP3.
+  destruct HF2 as (HE2 & HO2 & HK2 & HC2), HF3 as (HE3 & HO3 & HK3 & HC3).
+  assert (HE : edges s3 = delete e (edges s)) by (rewrite HE3, HE2; done).
+  assert (HO : order s3 = filter (λ e', e' ≠ e) (order s)) by (rewrite HO3, HO2; done).
+  split_and!; [done| |done|done|by rewrite HK3, HK2|by rewrite HC3, HC2].
+  apply (PInv_Inv e); [done|..].
+  - rewrite HO. apply NoDup_filter, HI.
+  - intros e'. rewrite HO, HE, elem_of_list_filter, (inv_order _ HI).
+    destruct (decide (e' = e)) as [->|Hd].
+    + rewrite lookup_delete. split; [by intros [? _]|by intros [? ?]].
+    + rewrite lookup_delete_ne by done. tauto.
+  - intros e' rx'. rewrite HE. intros [_ ?]%lookup_delete_Some. by eapply (inv_nonempty _ HI).
+  - intros e' rx'. rewrite HE. intros [_ ?]%lookup_delete_Some. by eapply (inv_rule _ HI).
+Qed.
+
+Lemma remove_rxn_Inv s e : Inv s → Inv (remove_rxn s e).1.
+Proof.
+  intros HI. destruct (edges s !! e) as [rx|] eqn:He.
+  - by apply (remove_rxn_full s e rx).
+  - unfold remove_rxn. by rewrite He.
+Qed.
+
+(** ** molecule labels *)
+
+Lemma assign_mol_Inv s x m : Inv s → Inv (assign_mol s x m).1.
+Proof.
+  intros HI. unfold assign_mol. destruct (decide _) as [Hx|Hx]; [|done].
+  destruct HI as [? ? ? ? Hm ? ? ? ?]. split; try done. cbn. rewrite dom_insert_L. set_solver.
+Qed.
+
+Lemma set_mol_fold_dom (S : gset string) mp (m0 : gmap string string) :
+  dom m0 ⊆ S →
+  dom (foldl (λ acc p, if decide (p.1 ∈ S) then <[ p.1 := p.2 ]> acc else acc) m0 mp) ⊆ S.
+Proof.
+  revert m0. induction mp as [|p mp IH]; intros m0 H0; cbn; [done|].
+  apply IH. destruct (decide _); [|done]. rewrite dom_insert_L. set_solver.
+Qed.
+
+Lemma set_mol_map_Inv s mp strict clear : Inv s → Inv (set_mol_map s mp strict clear).1.
+Proof.
+  intros HI. unfold set_mol_map. destruct (_ && _); [done|].
+  destruct HI as [? ? ? ? Hm ? ? ? ?]. split; try done. cbn.
+  apply set_mol_fold_dom. destruct clear; [set_solver|done].
+Qed.
+
+(** ** remove_species *)
+
+Definition strip (x : string) (rx : rxn) : rxn :=
+  Rxn (r_rule rx) (delete x (r_lhs rx)) (delete x (r_rhs rx)).
+(** the abstract effect on one stored reaction: [x] is deleted from both sides,
+    every other coefficient is untouched; the reaction is dropped if nothing is left *)
+Definition strip_keep (x : string) (rx : rxn) : option rxn :=
+  if rxn_empty (strip x rx) then None else Some (strip x rx).
+
+Lemma lookup_strip (E : gmap string rxn) x e rx' :
+  omap (strip_keep x) E !! e = Some rx' ↔
+  ∃ rx, E !! e = Some rx ∧ rx' = strip x rx ∧ rxn_empty (strip x rx) = false.
+Proof.
+  rewrite lookup_omap_Some. unfold strip_keep. split.
+  - intros (rx & Hk & He). exists rx. destruct (rxn_empty _); by simplify_eq.
+  - intros (rx & He & -> & Hem). exists rx. by rewrite Hem.
+Qed.
+
+Lemma strip_nonempty_l x y rx : y ≠ x → y ∈ dom (r_lhs rx) → rxn_empty (strip x rx) = false.
+Proof.
+  intros Hne Hy. apply rxn_empty_false. unfold rxn_species, strip. cbn.
+  unfold side in *; rewrite !dom_delete_L. set_solver.
+Qed.
+Lemma strip_nonempty_r x y rx : y ≠ x → y ∈ dom (r_rhs rx) → rxn_empty (strip x rx) = false.
+Proof.
+  intros Hne Hy. apply rxn_empty_false. unfold rxn_species, strip. cbn.
+  unfold side in *; rewrite !dom_delete_L. set_solver.
+Qed.
+Lemma strip_empty_occ x rx :
+  rxn_empty rx = false → rxn_empty (strip x rx) = true → x ∈ dom (r_lhs rx) ∨ x ∈ dom (r_rhs rx).
+Proof.
+  intros Hne Hem. apply rxn_empty_false in Hne. apply set_choose_L in Hne as [y Hy].
+  destruct (decide (y = x)) as [->|Hd]; [unfold rxn_species in Hy; set_solver|].
+  apply elem_of_union in Hy as [Hy|Hy].
+  - by rewrite (strip_nonempty_l x y rx) in Hem.
+  - by rewrite (strip_nonempty_r x y rx) in Hem.
+Qed.
+
+Lemma strip_E2 (E : gmap string rxn) x (ins outs : gset string) :
+  (∀ e rx, E !! e = Some rx → (e ∈ ins ↔ x ∈ dom (r_rhs rx)) ∧ (e ∈ outs ↔ x ∈ dom (r_lhs rx))) →
+  (∀ e rx, E !! e = Some rx → rxn_empty rx = false) →
+  let E1 := map_imap (λ e rx, Some (strip_rxn x ins outs e rx)) E in
+  let dead := dom (filter (λ p, p.1 ∈ ins ∪ outs ∧ rxn_empty p.2 = true) E1) in
+  (∀ e, e ∈ dead ↔ ∃ rx, E !! e = Some rx ∧ rxn_empty (strip x rx) = true) ∧
+  filter (λ p, p.1 ∉ dead) E1 = omap (strip_keep x) E.
+Proof.
+  intros Hio Hne E1 dead.
+  assert (HE1 : ∀ e, E1 !! e = strip x <$> E !! e).
+  { intros e. unfold E1. rewrite map_lookup_imap. destruct (E !! e) as [rx|] eqn:He; cbn; [|done].
+    f_equal. unfold strip_rxn, strip. destruct (Hio e rx He) as [Hi Ho]. f_equal.
+    - destruct (decide _); [done|]. unfold side in *. rewrite delete_notin; [done|]. apply not_elem_of_dom. tauto.
+    - destruct (decide _); [done|]. unfold side in *. rewrite delete_notin; [done|]. apply not_elem_of_dom. tauto. }
+  assert (Hdead : ∀ e, e ∈ dead ↔ ∃ rx, E !! e = Some rx ∧ rxn_empty (strip x rx) = true).
+  { intros e. unfold dead. rewrite elem_of_dom. unfold is_Some.
+    setoid_rewrite map_filter_lookup_Some. cbn. setoid_rewrite HE1. split.
+    - intros (rx' & Hl & _ & Hem). destruct (E !! e) as [rx|] eqn:He; simplify_eq/=. eauto.
+    - intros (rx & He & Hem). exists (strip x rx). rewrite He. split; [done|]. split; [|done].
+      destruct (Hio e rx He) as [Hi Ho].
+      destruct (strip_empty_occ x rx (Hne e rx He) Hem); set_solver. }
+  split; [done|].
+  apply map_eq. intros e. apply option_eq. intros rx'.
+  rewrite map_filter_lookup_Some, lookup_strip, HE1, Hdead. cbn. split.
+  - intros [Hl Hnd]. destruct (E !! e) as [rx|] eqn:He; simplify_eq/=. exists rx.
+    split_and!; [done..|]. destruct (rxn_empty (strip x rx)) eqn:Hem; [|done].
+    destruct Hnd. eauto.
+  - intros (rx & He & -> & Hem). rewrite He. split; [done|].
+    intros (rx2 & ? & ?). simplify_eq. congruence.
+Qed.
+
+Lemma strip_state_PInv s x O C K' P :
+  Inv s → x ∈ K' ∨ x ∈ P → kept s ⊆ K' →
+  PInv "" ∅ ∅ P (Net (species s) (omap (strip_keep x) (edges s)) O
+                     (alter (λ _, ∅) x (s_in s)) (alter (λ _, ∅) x (s_out s)) C (mol s) K').
+Proof.
+  intros HI Hx HK. split; cbn.
+  - intros y e'. rewrite default_alter_empty. destruct (decide (y = x)) as [->|Hne].
+    + split; [set_solver|]. intros [(rx' & H & Hy)|[_ ?]]; [|set_solver].
+      apply lookup_strip in H as (rx & He & -> & Hem). cbn in Hy. unfold side in *; rewrite dom_delete_L in Hy. set_solver.
+    + rewrite (inv_in _ HI), elem_of_producers. split.
+      * intros (rx & He & Hy). left. exists (strip x rx). split.
+        -- apply lookup_strip. exists rx. split_and!; [done..|]. by apply (strip_nonempty_r x y).
+        -- cbn. unfold side in *; rewrite dom_delete_L. set_solver.
+      * intros [(rx' & H & Hy)|[_ ?]]; [|set_solver].
+        apply lookup_strip in H as (rx & He & -> & Hem). exists rx. split; [done|].
+        cbn in Hy. unfold side in *; rewrite dom_delete_L in Hy. set_solver.
+  - intros y e'. rewrite default_alter_empty. destruct (decide (y = x)) as [->|Hne].
+    + split; [set_solver|]. intros [(rx' & H & Hy)|[_ ?]]; [|set_solver].
+      apply lookup_strip in H as (rx & He & -> & Hem). cbn in Hy. unfold side in *; rewrite dom_delete_L in Hy. set_solver.
+    + rewrite (inv_out _ HI), elem_of_consumers. split.
+      * intros (rx & He & Hy). left. exists (strip x rx). split.
+        -- apply lookup_strip. exists rx. split_and!; [done..|]. by apply (strip_nonempty_l x y).
+        -- cbn. unfold side in *; rewrite dom_delete_L. set_solver.
+      * intros [(rx' & H & Hy)|[_ ?]]; [|set_solver].
+        apply lookup_strip in H as (rx & He & -> & Hem). exists rx. split; [done|].
+        cbn in Hy. unfold side in *; rewrite dom_delete_L in Hy. set_solver.
+  - intros y (e' & rx' & H & Hy). apply lookup_strip in H as (rx & He & -> & Hem).
+    apply (inv_occ _ HI). exists e', rx. split; [done|].
+    unfold rxn_species, strip in *. cbn in Hy. unfold side in *; rewrite !dom_delete_L in Hy. set_solver.
+  - intros y Hy. destruct (decide (y = x)) as [->|Hne]; [set_solver|].
+    destruct (inv_sp _ HI y Hy) as [(e' & rx & He & Hy')|?]; [|set_solver].
+    left. exists e', (strip x rx). apply elem_of_union in Hy' as [Hy'|Hy'].
+    + split; [apply lookup_strip; exists rx; split_and!; [done..|by apply (strip_nonempty_l x y)]|].
+      unfold rxn_species, strip. cbn. unfold side in *; rewrite !dom_delete_L. set_solver.
+    + split; [apply lookup_strip; exists rx; split_and!; [done..|by apply (strip_nonempty_r x y)]|].
+      unfold rxn_species, strip. cbn. unfold side in *; rewrite !dom_delete_L. set_solver.
+  - apply HI.
+Qed.
+
+Lemma remove_species_full s x prune :
+  Inv s → x ∈ species s →
+  let s' := (remove_species s x prune).1 in
+  (remove_species s x prune).2 = None ∧ Inv s' ∧ edges s' = omap (strip_keep x) (edges s).
+Proof.
+  intros HI Hx. unfold remove_species. rewrite decide_True by done.
+  rewrite decide_True; cycle 1.
+  { intros e [H|H]%elem_of_union; apply elem_of_dom.
+    - rewrite (inv_in _ HI) in H. apply elem_of_producers in H as (?&?&?). eauto.
+    - rewrite (inv_out _ HI) in H. apply elem_of_consumers in H as (?&?&?). eauto. }
+  destruct (strip_E2 (edges s) x (default ∅ (s_in s !! x)) (default ∅ (s_out s !! x))) as [Hdead HE2].
+  { intros e rx He. rewrite (inv_in _ HI), (inv_out _ HI), elem_of_producers, elem_of_consumers.
+    split; (split; [by intros (?&?&?); simplify_eq|eauto]). }
+  { apply HI. }
+  cbv zeta. rewrite HE2. clear HE2.
+  set (dead := dom (filter _ (map_imap _ (edges s)))) in *.
+  assert (Hnd : NoDup (filter (λ e', e' ∉ dead) (order s))) by apply NoDup_filter, HI.
+  assert (Hord : ∀ e', e' ∈ filter (λ e', e' ∉ dead) (order s) ↔ is_Some (omap (strip_keep x) (edges s) !! e')).
+  { intros e'. rewrite elem_of_list_filter, (inv_order _ HI), Hdead. unfold is_Some.
+    setoid_rewrite lookup_strip. split.
+    - intros [Hnd' [rx He]]. exists (strip x rx), rx. split_and!; [done..|].
+      destruct (rxn_empty (strip x rx)) eqn:Hem; [|done]. destruct Hnd'. eauto.
+    - intros (rx' & rx & He & -> & Hem). split; [|eauto]. intros (rx2 & ? & ?). simplify_eq. congruence. }
+  assert (Hne : ∀ e' rx', omap (strip_keep x) (edges s) !! e' = Some rx' → rxn_empty rx' = false).
+  { intros e' rx' (rx & He & -> & Hem)%lookup_strip. done. }
+  assert (Hrule : ∀ e' rx', omap (strip_keep x) (edges s) !! e' = Some rx' → r_rule rx' ≠ "").
+  { intros e' rx' (rx & He & -> & Hem)%lookup_strip. cbn. by eapply (inv_rule _ HI). }
+  destruct prune; cbn [fst snd].
+  - split; [done|].
+    match goal with |- context [prune_orphan x ?s1] => set (s1' := s1) end.
+    assert (HP : PInv "" ∅ ∅ {[x]} s1') by (apply strip_state_PInv; [done|set_solver|done]).
+    apply (prune_orphan_PInv _ _ _ _ x) in HP; [|done].
+    destruct (prune_orphan_frame x s1') as (HE & HO & _ & _). cbn in HE, HO.
+    split; [|done]. apply (PInv_Inv ""); [done|..]; rewrite ?HE, ?HO; try done.
+  - split; [done|]. split; [|done].
+    apply (PInv_Inv ""); [apply strip_state_PInv; [done|set_solver|set_solver]|done..].
+Qed.
+
+Lemma remove_species_Inv s x prune : Inv s → Inv (remove_species s x prune).1.
+Proof.
+  intros HI. destruct (decide (x ∈ species s)) as [Hx|Hx].
+  - by apply remove_species_full.
+  - unfold remove_species. by rewrite decide_False.
+Qed.
+
+(** ** merge *)
+
+Lemma merge_one_Inv prefix acc e rx : Inv acc.1 → Inv (merge_one prefix acc e rx).1.
+Proof.
+  destruct acc as [s [er|]]; [done|]. cbn [fst]. intros HI. unfold merge_one.
+  destruct (prefix || _).
+  - destruct (next_id _ _) as [[c e']|]; [|done].
+    pose proof (add_Inv (set_counters s (<[r_rule rx:=c]> (counters s)))
+                        (r_lhs rx) (r_rhs rx) (r_rule rx) (Some e')) as H.
+    destruct (add _ _ _ _ _) as [[s2 er] ?]. cbn [fst] in *. by apply H, set_counters_Inv.
+  - pose proof (add_Inv s (r_lhs rx) (r_rhs rx) (r_rule rx) (Some e)) as H.
+    destruct (add _ _ _ _ _) as [[s2 er] ?]. cbn [fst] in *. by apply H.
+Qed.
+
+Lemma merge_Inv s o prefix : Inv s → Inv (merge s o prefix).1.
+Proof.
+  intros HI. unfold merge.
+  assert (H : Inv (s, @None err).1) by done. revert H. generalize (s, @None err).
+  induction (edge_seq o) as [|p l IH]; intros acc H; cbn; [done|].
+  apply IH, merge_one_Inv, H.
+Qed.
+
+(** * 4. Worlds *)
+
+Lemma getn_Inv w i : Forall Inv w → Inv (getn w i).
+Proof.
+  intros H. unfold getn. rewrite nth_lookup. destruct (w !! i) eqn:E; cbn.
+  - by eapply Forall_lookup_1.
+  - apply Inv_init.
+Qed.
+
+Lemma step_Inv w o : Forall Inv w → Forall Inv (step w o).1.
+Proof.
+  intros Hw. destruct o as [i l r rule eid|i e|i x p|i j p|i j|i x m|i mp st cl]; cbn.
+  - pose proof (add_Inv (getn w i) (normalize l) (normalize r) rule eid (getn_Inv w i Hw)) as H.
+    destruct (add _ _ _ _ _) as [[s er] ?]. by apply Forall_insert.
+  - pose proof (remove_rxn_Inv (getn w i) e (getn_Inv w i Hw)) as H.
+    destruct (remove_rxn _ _) as [s er]. by apply Forall_insert.
+  - pose proof (remove_species_Inv (getn w i) x p (getn_Inv w i Hw)) as H.
+    destruct (remove_species _ _ _) as [s er]. by apply Forall_insert.
+  - pose proof (merge_Inv (getn w i) (getn w j) p (getn_Inv w i Hw)) as H.
+    destruct (merge _ _ _) as [s er]. by apply Forall_insert.
+  - apply Forall_insert; [done|]. by apply getn_Inv.
+  - pose proof (assign_mol_Inv (getn w i) x m (getn_Inv w i Hw)) as H.
+    destruct (assign_mol _ _ _) as [s er]. by apply Forall_insert.
+  - pose proof (set_mol_map_Inv (getn w i) mp st cl (getn_Inv w i Hw)) as H.
+    destruct (set_mol_map _ _ _ _) as [s er]. by apply Forall_insert.
+Qed.
+
+Lemma init_world_Inv n : Forall Inv (init_world n).
+Proof. apply Forall_replicate, Inv_init. Qed.
+
+Lemma run_Inv ops : ∀ w, Forall Inv w → Forall Inv (fold_left (λ w o, (step w o).1) ops w).
+Proof. induction ops as [|o ops IH]; intros w Hw; cbn; [done|]. by apply IH, step_Inv. Qed.
+
+Lemma reachable_Inv n ops : Forall Inv (fold_left (λ w o, (step w o).1) ops (init_world n)).
+Proof. apply run_Inv, init_world_Inv. Qed.
+
+(** an operation changes at most the network it targets *)
+Definition target (o : op) : nat :=
+  match o with
+  | OAdd i _ _ _ _ | ORemoveRxn i _ | ORemoveSpecies i _ _ | OMerge i _ _
+  | OAssignMol i _ _ | OSetMolMap i _ _ _ => i
+  | OCopy _ j => j
+  end.
+
+Lemma getn_setn_ne w i k s : k ≠ i → getn (setn w i s) k = getn w k.
+Proof. intros Hne. unfold getn, setn, world in *. rewrite !nth_lookup, list_lookup_insert_ne; done. Qed.
+
+Lemma step_frame w o k : k ≠ target o → getn (step w o).1 k = getn w k.
+Proof.
+  intros Hk. destruct o; cbn in *.
+  - destruct (add _ _ _ _ _) as [[s er] ?]. by apply getn_setn_ne.
+  - destruct (remove_rxn _ _) as [s er]. by apply getn_setn_ne.
+  - destruct (remove_species _ _ _) as [s er]. by apply getn_setn_ne.
+  - destruct (merge _ _ _) as [s er]. by apply getn_setn_ne.
+  - by apply getn_setn_ne.
+  - destruct (assign_mol _ _ _) as [s er]. by apply getn_setn_ne.
+  - destruct (set_mol_map _ _ _ _) as [s er]. by apply getn_setn_ne.
+Qed.
+
+Lemma step_length w o : length (step w o).1 = length w.
+Proof.
+  destruct o; cbn.
+  - destruct (add _ _ _ _ _) as [[s er] ?]. apply insert_length.
+  - destruct (remove_rxn _ _) as [s er]. apply insert_length.
+  - destruct (remove_species _ _ _) as [s er]. apply insert_length.
+  - destruct (merge _ _ _) as [s er]. apply insert_length.
+  - apply insert_length.
+  - destruct (assign_mol _ _ _) as [s er]. apply insert_length.
+  - destruct (set_mol_map _ _ _ _) as [s er]. apply insert_length.
+Qed.
+
+(** the invariant written out (so that the statement in props/C15.v does not hide behind the record) *)
+Lemma Inv_unfold s :
+  Inv s ↔
+  (∀ x e, e ∈ default ∅ (s_in s !! x) ↔ ∃ rx, edges s !! e = Some rx ∧ x ∈ dom (r_rhs rx)) ∧
+  (∀ x e, e ∈ default ∅ (s_out s !! x) ↔ ∃ rx, edges s !! e = Some rx ∧ x ∈ dom (r_lhs rx)) ∧
+  (∀ x, x ∈ species s ↔ (∃ e rx, edges s !! e = Some rx ∧ x ∈ rxn_species rx) ∨ (x ∈ kept s ∧ x ∈ species s)) ∧
+  dom (mol s) ⊆ species s ∧
+  NoDup (order s) ∧ (∀ e, e ∈ order s ↔ is_Some (edges s !! e)) ∧
+  (∀ e rx, edges s !! e = Some rx → rxn_empty rx = false ∧ r_rule rx ≠ "").
+Proof.
+  split.
+  - intros HI. split_and!; try apply HI.
+    + intros x e. by rewrite (inv_in _ HI), elem_of_producers.
+    + intros x e. by rewrite (inv_out _ HI), elem_of_consumers.
+    + intros x. split.
+      * intros Hx. destruct (inv_sp _ HI x Hx); auto.
+      * intros [H|[_ ?]]; [by apply (inv_occ _ HI)|done].
+    + intros e rx He. split; [by eapply (inv_nonempty _ HI)|by eapply (inv_rule _ HI)].
+  - intros (Hi & Ho & Hs & Hm & Hnd & Hord & Hne). split; try done.
+    + intros x. apply set_eq. intros e. by rewrite Hi, elem_of_producers.
+    + intros x. apply set_eq. intros e. by rewrite Ho, elem_of_consumers.
+    + intros x Hx. apply Hs. by left.
+    + intros x Hx. apply Hs in Hx as [?|[? _]]; auto.
+    + intros e rx He. by apply (Hne e rx).
+    + intros e rx He. by apply (Hne e rx).
+Qed.
